@@ -173,6 +173,9 @@ class Policy:
         else:
             return False
 
+        if new_rule in ast.policy:
+            return False
+
         if "p_priority" in ast.tokens:
             priority_index = ast.tokens.index("p_priority")
             if old_rule[priority_index] == new_rule[priority_index]:
@@ -203,13 +206,17 @@ class Policy:
             else:
                 return False
 
+        for i, new_rule in enumerate(new_rules):
+            if new_rule in ast.policy or new_rule in new_rules[:i]:
+                return False
+
         if "p_priority" in ast.tokens:
             priority_index = ast.tokens.index("p_priority")
-            for idx, old_rule, new_rule in zip(old_rules_index, old_rules, new_rules):
-                if old_rule[priority_index] == new_rule[priority_index]:
-                    ast.policy[idx] = new_rule
-                else:
+            for old_rule, new_rule in zip(old_rules, new_rules):
+                if old_rule[priority_index] != new_rule[priority_index]:
                     raise Exception("New rule should have the same priority with old rule.")
+            for idx, new_rule in zip(old_rules_index, new_rules):
+                ast.policy[idx] = new_rule
         else:
             for idx, old_rule, new_rule in zip(old_rules_index, old_rules, new_rules):
                 ast.policy[idx] = new_rule
